@@ -56,11 +56,61 @@ namespace
         }
     }
 
-    struct Outcome { std::optional<std::string> violation; std::string sig; bool nontrivial{false}; };
+    // sinks INSIDE sub-graphs: the same sub-graph wired twice on the same port (inlined, nested_, try_except_ around a sink graph)
+    struct InnerSink { static constexpr auto name = "c06s_inner_sink"; static void eval(In<"x", TS<Int>> x, DateTime now) { g->log[7].push_back("t" + std::to_string(rel(now)) + "=" + std::to_string(static_cast<long>(x.value()))); } };
+    struct PlusOne { static constexpr auto name = "c06s_plus_one"; static void eval(In<"x", TS<Int>> x, Out<TS<Int>> out) { out.set(x.value() + 1); } };
+    struct GWithSink { static constexpr auto name = "c06s_g_with_sink"; static Port<TS<Int>> compose(Wiring &w, Port<TS<Int>> x) { wire<InnerSink>(w, x); return wire<PlusOne>(w, x); } };
+    struct GSinkOnly { static constexpr auto name = "c06s_g_sink_only"; static void compose(Wiring &w, Port<TS<Int>> x) { wire<InnerSink>(w, x); } };
+    struct ErrSink { static constexpr auto name = "c06s_err_sink"; static void eval(In<"e", TS<NodeError>> e) { (void)e; } };
+
+    struct Outcome { std::optional<std::string> violation; std::string sig, cls; bool nontrivial{false}; };
+
+    // desc: I|<form>|<tick masks>   form: i inlined twice, n nested_ twice, t try_except_<sink graph> twice
+    Outcome run_inner(const std::string &desc)
+    {
+        Outcome out;
+        auto parts = split(desc, '|');
+        const char form = parts.at(1)[0];
+        Run run; for (char ch : parts.at(2)) run.ticks.push_back(ch - '0'); run.cycles = static_cast<int>(run.ticks.size());
+        std::string exc;
+        g = &run;
+        try
+        {
+            Wiring w;
+            auto x = wire<SrcI<0>>(w);
+            for (int k = 0; k < 2; ++k)
+            {
+                if (form == 'i') wire<SinkI>(w, wire<GWithSink>(w, x), Int{k + 1});
+                else if (form == 'n') wire<SinkI>(w, nested_<GWithSink>(w, x), Int{k + 1});
+                else wire<ErrSink>(w, try_except_<GSinkOnly>(w, x).template as<TS<NodeError>>());
+            }
+            GraphBuilder gb = std::move(w).finish();
+            GraphExecutorBuilder eb;
+            eb.graph_builder(std::move(gb)).start_time(MIN_ST).end_time(MIN_ST + TimeDelta{run.cycles + 2});
+            auto ex = eb.make_executor();
+            ex.view().run();
+        }
+        catch (const std::exception &e) { exc = e.what(); }
+        g = nullptr;
+        if (!exc.empty()) { out.violation = "wiring or run threw: " + exc; return out; }
+        std::vector<std::string> want, once;
+        for (int c = 0; c < run.cycles; ++c) if (run.ticks[static_cast<std::size_t>(c)] & 1) { const std::string t = "t" + std::to_string(c) + "=" + std::to_string(10 * (c + 1) + 1); want.push_back(t); want.push_back(t); once.push_back(t); }
+        const auto &got = run.log[7];
+        std::string gs; for (auto &s2 : got) gs += s2 + " ";
+        out.sig = std::string{"I"} + form + gs;
+        out.nontrivial = !once.empty();
+        if (got != want)
+        {
+            out.violation = std::string{"the sink inside the sub-graph wired twice ("} + (form == 'i' ? "inlined" : form == 'n' ? "nested_" : "try_except_ around a sink graph") + ") recorded [" + gs + "]: two sink instances must each record every tick";
+            if (got == once && form != 'i') out.cls = std::string{"a sub-graph holding a sink, wired twice on the same port as "} + (form == 'n' ? "nested_<G>" : "try_except_<G>") + ", is shared: its inner sink runs once";
+        }
+        return out;
+    }
 
     // desc: <op>|<order digits>|<tick masks per cycle>     op: c concat(str add_) s sub_ a add_(int) n static node
     Outcome run_desc(const std::string &desc)
     {
+        if (desc[0] == 'I') return run_inner(desc);
         Outcome out;
         auto parts = split(desc, '|');
         const char op = parts.at(0)[0];
@@ -147,6 +197,19 @@ void verif_enumerate(verif::Ctx &ctx)
     } while (std::next_permutation(p.begin(), p.end()));
     std::vector<std::string> hist = {""};
     for (int c = 0; c < T; ++c) { std::vector<std::string> nx; for (auto &h : hist) for (int m = 0; m < 4; ++m) nx.push_back(h + static_cast<char>('0' + m)); hist.swap(nx); }
+    for (char form : std::string{"int"})
+        for (auto &h : hist)
+        {
+            if (!ctx.next_is_mine()) continue;
+            std::string hx; for (char ch : h) hx += (ch - '0') & 1 ? '1' : '0';
+            const std::string desc = std::string{"I|"} + form + "|" + hx;
+            ++ctx.evaluations; ++ctx.traces; ctx.transitions += static_cast<std::uint64_t>(T);
+            Outcome r = run_desc(desc);
+            ctx.state(r.sig);
+            if (r.nontrivial) ctx.nontriv(desc);
+            ctx.count("inner_sink_cases");
+            if (r.violation) ctx.violation(desc, *r.violation, r.cls.empty() ? "inner sink " + desc.substr(0, 3) + ": " + r.violation->substr(0, 40) : r.cls);
+        }
     for (char op : std::string{"csan"})
     {
         std::map<std::string, std::string> by_hist;   // all statement orders of one (op, history) must agree
